@@ -50,9 +50,13 @@ pub enum Mac {
     Cond,
     Dseg,
     Eseg,
+    /// body positions the code with .org (the argument is made increasing by the renderer)
+    Org,
+    /// a macro whose body calls the .org macro and then a plain one
+    OrgOuter,
 }
 
-const MACS: [Mac; 10] = [Mac::Dw, Mac::Scale, Mac::Regs, Mac::Ldd, Mac::Ten, Mac::Outer, Mac::Mid, Mac::Cond, Mac::Dseg, Mac::Eseg];
+const MACS: [Mac; 12] = [Mac::Dw, Mac::Scale, Mac::Regs, Mac::Ldd, Mac::Ten, Mac::Outer, Mac::Mid, Mac::Cond, Mac::Dseg, Mac::Eseg, Mac::Org, Mac::OrgOuter];
 
 enum BL {
     Text(&'static str),
@@ -72,11 +76,13 @@ impl Mac {
             Mac::Cond => "m_cond",
             Mac::Dseg => "m_dseg",
             Mac::Eseg => "m_eseg",
+            Mac::Org => "m_org",
+            Mac::OrgOuter => "m_orgouter",
         }
     }
     fn nparams(self) -> usize {
         match self {
-            Mac::Dw | Mac::Scale | Mac::Dseg | Mac::Eseg => 1,
+            Mac::Dw | Mac::Scale | Mac::Dseg | Mac::Eseg | Mac::Org | Mac::OrgOuter => 1,
             Mac::Ldd | Mac::Outer | Mac::Mid | Mac::Cond => 2,
             Mac::Regs => 3,
             Mac::Ten => 10,
@@ -108,6 +114,8 @@ impl Mac {
             ],
             // F6: bodies that switch segment and come back
             Mac::Dseg => vec![BL::Text("ldi r19, low(@0)"), BL::Text(".dseg"), BL::Text(".byte 2"), BL::Text(".cseg"), BL::Text("ldi r19, high(@0)")],
+            Mac::Org => vec![BL::Text("ldi r24, 1"), BL::Text(".org @0"), BL::Text("ldi r24, low(@0)")],
+            Mac::OrgOuter => vec![BL::Call(Mac::Org, &["@0"]), BL::Call(Mac::Dw, &["@0"]), BL::Text("ldi r25, 2")],
             Mac::Eseg => vec![BL::Text(".eseg"), BL::Text(".db @0"), BL::Text(".cseg"), BL::Text("ldi r20, low(@0)"), BL::Text(".eseg"), BL::Text(".db 0x33"), BL::Text(".cseg"), BL::Text("ldi r20, 0x44")],
         }
     }
@@ -281,6 +289,9 @@ impl MacModel {
         m.insert(Mac::Cond, two);
         m.insert(Mac::Dseg, vec![vec![any[3].clone()], vec![any[23].clone()], vec![e("0x1234")]]);
         m.insert(Mac::Eseg, vec![vec![any[0].clone()], vec![any[24].clone()]]);
+        // the argument of the .org macros is replaced by an increasing address at render time
+        m.insert(Mac::Org, vec![vec![e("0")]]);
+        m.insert(Mac::OrgOuter, vec![vec![e("0")]]);
         MacModel { argsets: m }
     }
 }
@@ -369,7 +380,14 @@ impl MacModel {
                     program.push_str(if i % 2 == 0 { ".endmacro\n" } else { ".endm\n" });
                 }
                 Act::Call(m, ai, c) => {
-                    let args = &self.argsets[m][*ai];
+                    let org_args;
+                    let args = if matches!(m, Mac::Org | Mac::OrgOuter) {
+                        // positions must increase along the program: 0x100 per trace position
+                        org_args = vec![Arg::Expr(format!("{}", 0x100 * (i + 1)))];
+                        &org_args
+                    } else {
+                        &self.argsets[m][*ai]
+                    };
                     program.push_str(&format!("{} {}\n", spell(m.name(), *c), args.iter().map(|a| a.call_text()).collect::<Vec<_>>().join(", ")));
                     features.insert(format!("{:?}", m));
                     if expand(*m, args, &defined, &mut exp_lines, 0).is_none() {
@@ -492,7 +510,7 @@ pub fn run(tier: Tier) -> i32 {
     let distinct = outcomes.lock().unwrap().len();
     rep.guard(n_ok.load(Ordering::Relaxed) > 1000 && n_err.load(Ordering::Relaxed) > 1000, "need both Ok and Err outcomes");
     rep.guard(distinct > 300, "fewer than 300 distinct observed images");
-    rep.guard(mac_use.lock().unwrap().len() >= 13, "not every macro family / feature was exercised");
+    rep.guard(mac_use.lock().unwrap().len() >= 15, "not every macro family / feature was exercised");
     for s in samples.into_inner().unwrap() {
         rep.sample(|| s);
     }
